@@ -493,15 +493,15 @@ Definition srow_norm2sq (row : srow) : Q := sumq (map (fun e => snd e * snd e) r
 Definition get_laplacian (a : smat) : smat := sadd (sdiag (smv a (vones (s_nrow a)))) (sneg a).
 (** utils/membership.py *)
 Definition zmax (l : list Z) : Z := fold_right Z.max (-1)%Z l.
+Definition membership_ncol (labels : list Z) (n_labels : option nat) : nat :=
+  match n_labels with Some k => k | None => Z.to_nat (zmax labels + 1) end.
 Definition get_membership (labels : list Z) (n_labels : option nat) : res smat :=
-  match labels, n_labels with
-  | [], None => Err                                       (* max() of an empty sequence *)
-  | _, _ =>
-    let nc := match n_labels with Some k => k | None => Z.to_nat (zmax labels + 1) end in
+  if (match labels, n_labels with [], None => true | _, _ => false end) then Err    (* max() of an empty sequence *)
+  else
+    let nc := membership_ncol labels n_labels in
     if forallb (fun l => Z.ltb l (Z.of_nat nc)) labels
     then Ok {| s_ncol := nc; s_rows := map (fun l => if Z.leb 0 l then [(Z.to_nat l, 1)] else []) labels |}
-    else Err                                              (* column index exceeds matrix dimensions *)
-  end.
+    else Err.                                             (* column index exceeds matrix dimensions *)
 Definition from_membership (m : smat) : res (list Z) :=
   if forallb (fun r => Nat.leb (length r) 1) (s_rows m)
   then Ok (map (fun r => match r with [] => (-1)%Z | e :: _ => Z.of_nat (fst e) end) (s_rows m))
